@@ -1,6 +1,7 @@
 (* C16 — Semantic action references bind to the right symbols.
    Model: Gram/ActionRefs.v (convertPart/pushName positions and names, expandExpr, compiler traverse with
-   mid-rule extraction, ActionVars.resolve, goParserAction slot arithmetic). *)
+   mid-rule extraction, ActionVars.resolve, goParserAction: left()/first()/last() and the slot arithmetic).
+   Proofs: Gram/ActionRefs_proofs.v, Gram/ActionNames_proofs.v (the Names table). *)
 From Coq Require Import List NArith ZArith Bool Arith.
 From TM Require Import Gram.ActionRefs Gram.ActionRefs_proofs Gram.ActionNames_proofs.
 Import ListNotations.
@@ -32,7 +33,8 @@ Proof. exact eval_num_binds. Qed.
 (* ref_binds, named: with [ps] the positions the name stands for in the original rule, ${name.offset} is the
    start of the first of them present in the expansion, ${name.endoffset} the end of the last one present,
    $name the value of the only one present; nil / -1 when none is present. (When several are present $name
-   is a generation error -- AErr 3 -- the statement leaves that case as it is.) *)
+   is a generation error -- AErr 3 -- the statement leaves that case as it is.) The hypothesis about the table
+   is discharged for the tables convert builds by C16_names_table_sound / C16_named_ref_denotes_occurrence. *)
 Theorem C16_ref_binds_named : forall ca rm st b base lhs nm ps pr,
   agree st rm b -> nm_get (ca_names ca) nm = Some ps -> ps <> [] ->
   eval_ref ca rm (length st) (base ++ st) lhs (RName nm) pr =
